@@ -311,5 +311,5 @@ def check_rank0(case, rec):
     rec.nontrivial(len(case["ops"]) >= 3)
 
 
-PARTS = [Part("access", cases(), check, n_quick=4000, n_thorough=8000),
+PARTS = [Part("access", cases(), check, n_quick=4000, n_thorough=25000),
          Part("rank0", rank0_cases(), check_rank0, n_quick=100, n_thorough=300)]
